@@ -9,6 +9,7 @@ open Iauthd Iauthd.Proto
 namespace Drv.ProtoDrv
 
 structure DSt where
+  lim : Limits := {}
   mods : Nat := 0
   conf : Config := {}
   live : Config := {}
@@ -50,7 +51,7 @@ def parseConfig (fs : List String) : Config × Bool := Id.run do
   return ({ c with xq := sortSection c.xq, cls := sortSection c.cls }, bad)
 
 def stepOp (version : Bytes) (d : DSt) (line : String) : DSt × String :=
-  if line.startsWith "case " then ({}, line)
+  if line.startsWith "case " then ({ lim := d.lim }, line)
   else if d.faulted then (d, "")
   else
     match Drv.fields line with
@@ -58,7 +59,7 @@ def stepOp (version : Bytes) (d : DSt) (line : String) : DSt × String :=
     | "conf" :: _ :: rest => ({ d with conf := (parseConfig rest).1 }, "ok")
     | ["verbosity", _] => (d, "ok")
     | ["start"] =>
-      let s0 : State := { hasXq := d.mods ≥ 1, hasClass := d.mods ≥ 2 }
+      let s0 : State := { hasXq := d.mods ≥ 1, hasClass := d.mods ≥ 2, lim := d.lim }
       let (s1, live) := applyConfig s0 {} d.conf true
       ({ d with st := s1, live := live, started := true }, s!"rc 0 out {hexLines (startup s1 version)}")
     | "in" :: h :: _ =>
@@ -230,8 +231,14 @@ def main (args : List String) : IO UInt32 := do
   let version := match args with
     | _ :: "--version" :: v :: _ => Bytes.ofHex v
     | _ => Bytes.ofString "iauthd-c iauthd-git"
+  let lim : Limits := match args with
+    | _ :: "--version" :: _ :: "--limits" :: l :: _ =>
+      let kv := (l.splitOn ",").filterMap fun x => match x.splitOn "=" with | [k, v] => v.toNat?.map (fun n => (k, n)) | _ => none
+      let g (k : String) (dflt : Nat) := ((kv.find? (·.1 == k)).map (·.2)).getD dflt
+      { nick := g "nick" 30, user := g "user" 10, host := g "host" 63, real := g "real" 50, account := g "account" 64, cls := g "class" 63 }
+    | _ => {}
   let lines ← readLines
-  let mut d : DSt := {}
+  let mut d : DSt := { lim := lim }
   let mut out : Array String := Array.mkEmpty lines.size
   for l in lines do
     let (d', o) := stepOp version d l
